@@ -63,6 +63,12 @@ def events(dim, flavor, tier, depth):
         g = SYN.get(n, n)
         for val in VALUES[g][:nvals]:
             ev.append(("set", n, val))
+    # coincidences: assign to a coordinate the value that is *currently stored* in a slot of the same group (v.theta = <stored z>,
+    # v.rho = <stored x>, v.tau = <stored t> ...): a value-equal coordinate object of another kind must not be mistaken for "no change"
+    pos_of_group = {0: (0, 1), 1: (2,), 2: (3,)}
+    for n in names:
+        for k in pos_of_group[GROUP[SYN.get(n, n)]]:
+            ev.append(("setc", n, k))
     other_systems = [L.CART[dim], L.SYSTEMS[dim][-1], L.SYSTEMS[dim][len(L.SYSTEMS[dim]) // 2]]
     for opn in ("+=", "-="):
         for osys in dict.fromkeys(other_systems):
@@ -296,6 +302,11 @@ def explore(res: Result, dim, system, flavor, layer, depth, tier, graph, first_r
         for i, ev in enumerate(hist):
             before_id, before_type, before_slots = id(v), type(v), slots(v)
             before_sys, before_st = L.system_of(v)
+            if ev[0] == "setc":
+                val = before_st[ev[2]]
+                if SYN.get(ev[1], ev[1]) == "rho" and val < 0:
+                    return False  # a negative rho is not a legitimate value to assign
+                ev = ("set", ev[1], val)
             exc = None
             try:
                 v2, _ = apply_event(v, ev, dim, layer)
@@ -325,7 +336,7 @@ def explore(res: Result, dim, system, flavor, layer, depth, tier, graph, first_r
             res.states += 1
             res.evaluations += 1
             ok = run_history(list(hist))
-            if len(hist) >= 2 or hist[-1][0] == "raise" or hist[-1][0] == "set":
+            if len(hist) >= 2 or hist[-1][0] in ("raise", "set", "setc"):
                 res.nontrivial += 1
             if ok and d < depth:
                 for e in evs:
